@@ -134,8 +134,9 @@ Next ==
     [] pc = "Rv5e" ->
          \* [D13] intended: a version may carry an epoch "1:2.0" (IDENT COLON IDENT);
          \* the pinned code stops after the first IDENT and reports "Expected ')'"
+         \* [D50] intended: with an epoch the upstream part may contain further colons ("1:2:3"): the step repeats
          IF Cur = "COLON" /\ At(tp + 1) = "IDENT"
-         THEN Go(<<T(tp), T(tp+1)>>, 2, 0, "Rv5s", UpdRel(LAMBDA r : [r EXCEPT !.ver = r.ver \o <<tp, tp + 1>>]))
+         THEN Go(<<T(tp), T(tp+1)>>, 2, 0, "Rv5e", UpdRel(LAMBDA r : [r EXCEPT !.ver = r.ver \o <<tp, tp + 1>>]))
          ELSE Go(<<>>, 0, 0, "Rv5s", st)
     \* [D46] intended: blanks may stand in front of the closing parenthesis (Policy 7.1: whitespace may appear at
     \* any point in the version specification); the pinned code reported "Expected ')'" for "(>= 1 )"
